@@ -876,6 +876,19 @@ package seccomp
 //@   ensures 0 <= k && k < len(sc) && x == sc[k] ==> anyEntry(sc, k+1) == (anyEntry(sc, k) || (ev_nr(ev) == x.Num && (len(x.Conditions) == 0 || anyList(x, len(x.Conditions)))))
 //@ lemma entryValidInst(sc []SyscallWithConditions, k int, x SyscallWithConditions)
 //@   ensures 0 <= k && k < len(sc) && x == sc[k] && entriesOK(sc) ==> argsValid(x) && (entriesListsNonEmpty(sc) ==> semValid(x))
+// Dump compiles (by Policy.Assemble's contract) and prints; like Assemble it changes nothing of the caller's policy
+// but the cached architecture, and it reports the compiler's error instead of printing anything for an invalid policy
+//@ func (p *Policy) Dump(out io.Writer) error   properties C07 C13
+//@   deterministic C13
+//@   frame_props C13
+//@   requires p != nil
+//@   requires @api_groups forall(i, 0, len(p.Syscalls), p.Syscalls[i].arch == nil)
+//@   modifies p
+//@   ensures @frame {C13} p.Syscalls == old(p.Syscalls) && p.DefaultAction == old(p.DefaultAction) && (old(p.arch) != nil ==> p.arch == old(p.arch))
+//@   ensures @c07_action {C07} result == nil ==> knownAction(old(p.DefaultAction)) && len(old(p.Syscalls)) > 0 && p.arch != nil
+//@   ensures @c07_groups {C07} result == nil ==> forall(i, 0, len(old(p.Syscalls)), groupValidF(*p.arch, old(p.Syscalls)[i]))
+//@   loop 1 binder k match range assembled
+
 //@ func (g *SyscallGroup) Assemble(defaultAction Action) ([]bpf.Instruction, error)   properties C01 C05 C07
 //@   fresh C13
 //@   deterministic C13
